@@ -3,6 +3,7 @@ use crate::Args;
 pub mod c05;
 pub mod c14;
 pub mod c16;
+pub mod c15;
 
 pub fn run(args: &Args) -> i32 {
     match args.prop.as_str() {
@@ -10,6 +11,7 @@ pub fn run(args: &Args) -> i32 {
         "C14" => c14::run(args),
         "smoke" => smoke::run(args),
         "C16" => c16::run(args),
+        "C15" => c15::run(args),
         other => {
             eprintln!("no driver for property {other}");
             2
